@@ -174,6 +174,45 @@ fn c01(tier: &str) -> i32 {
     }
     rep.add_count("scenario_descriptions", jobs.len() as u64);
     run_e1(jobs, &|cx, rep, job| { props_e1::check_c01(cx, rep, job.expect_converge); }, &mut rep);
+    // the same scenarios on one unforked SQLite connection each (canonical order, until nothing changes)
+    {
+        let mut v = families::c01_quick();
+        v.extend(families::leaves());
+        v.extend(families::c08_quick());
+        if tier != "quick" {
+            v.extend(families::chains(2, 5));
+            v.extend(families::c11_extra());
+        }
+        let next = std::sync::atomic::AtomicUsize::new(0);
+        let out: std::sync::Mutex<Vec<Report>> = std::sync::Mutex::new(Vec::new());
+        std::thread::scope(|sc| {
+            for _ in 0..threads() {
+                sc.spawn(|| loop {
+                    let i = next.fetch_add(1, std::sync::atomic::Ordering::SeqCst);
+                    if i >= v.len() {
+                        break;
+                    }
+                    if !v[i].1 {
+                        continue;
+                    }
+                    let mut r = Report::new("C01", tier, "model_checking");
+                    if let Ok(w) = scenario::build_world(&v[i].0, lab::Bk::Sqlite) {
+                        for m in w.initial.keys().cloned().collect::<Vec<_>>() {
+                            // members whose start state the generator produced by merging their own commit sit on a
+                            // branch without a snapshot (defect D1, judged on the graphs): only root starters here
+                            if w.sc.members.contains(&m) && w.initial_node.get(&m).map(|p| p.is_empty()).unwrap_or(false) {
+                                c11::unforked_convergence(&w, &m, &mut r);
+                            }
+                        }
+                    }
+                    out.lock().unwrap().push(r);
+                });
+            }
+        });
+        for r in out.into_inner().unwrap() {
+            rep.merge(r);
+        }
+    }
     rep.finish()
 }
 
@@ -326,6 +365,8 @@ fn c14(tier: &str) -> i32 {
     run_e1(jobs, &|cx, rep, _| props_e1::check_c14(cx, rep), &mut rep);
     // the hostile inputs of C06, monitored
     c06::run(&mut rep, lab::Bk::Memory, tier != "quick");
+    // recovery after a crash at every storage step (C12's rollback history), monitored
+    crashx::check_c14_recovery(&mut rep);
     // Debug of the types the statement names
     {
         let enc = mdk_sqlite_storage::EncryptionConfig::new([0xEE; 32]);
